@@ -417,7 +417,11 @@ def POWER(
     https://support.office.com/en-us/article/
         power-function-d3f2908b-56f4-4c3f-895a-07fb519c362a
     """
-    return np.power(number, power)
+    try:
+        return np.power(number, power)
+    except ZeroDivisionError:
+        # 0 raised to a negative power.
+        raise xlerrors.DivZeroExcelError()
 
 
 @xl.register()
